@@ -1,8 +1,11 @@
 import StoneVerif.Model.Rt.Spec
+import StoneVerif.Model.Rt.Decode
+import StoneVerif.Model.Rt.WF
 import StoneVerif.Model.Rt.Ir
 import StoneVerif.Model.Rt.SpecC08
 import StoneVerif.Lemmas.RtValidate
 /-! Property theorems for C08 (generated classes accept a value exactly when it satisfies the declared type). -/
+set_option linter.unusedSimpArgs false
 namespace StoneVerif.C08
 open StoneVerif.Rt StoneVerif.Rt.V8
 
@@ -39,5 +42,256 @@ theorem validate_norm {E : Ext} {env : Env} {t : PTy} {v v' : PyVal} (h : valida
   rcases validate_spec E env t v with ⟨_, h2⟩ | ⟨_, h2⟩
   · rw [h] at h2; cases h2; rfl
   · rw [h] at h2; simp at h2
+
+/-- Validating the stored value again accepts it and changes nothing (the normalisations are idempotent). -/
+theorem validate_idem {E : Ext} {env : Env} {t : PTy} {v v' : PyVal} (h : validate E env t v = .ok v') :
+    validate E env t v' = .ok v' := by
+  have hs : satB E env t v = true := (validate_iff_sat E env t v).1 ⟨v', h⟩
+  have hv : v' = normOf E t v := validate_norm h
+  obtain ⟨h1, h2⟩ := norm_sat E env t v hs
+  rcases validate_spec E env t v' with ⟨_, b⟩ | ⟨a, _⟩
+  · rw [b, hv, h2]
+  · rw [hv, h1] at a; cases a
+
+/-! ## 4. `validate_type_only` -/
+
+/-- `validate_type_only` succeeds exactly on None-where-nullable or on the class relation. (For a
+validator that is not of a user type the only way to succeed is None-where-nullable; `classSat` is
+false there.) -/
+theorem validateTypeOnly_iff (env : Env) (t : PTy) (v : PyVal) :
+    validateTypeOnly env t v = .ok () ↔ (t.flags.nullable = true ∧ v = .none) ∨ classSat env t v = true := by
+  have hnone : isNoneV v = true ↔ v = .none := by cases v <;> simp [isNoneV]
+  have key : typeOnlyB env t v = true ↔ (t.flags.nullable = true ∧ v = .none) ∨ classSat env t v = true := by
+    simp [typeOnlyB, hnone]
+  rw [← key]
+  rcases validateTypeOnly_eq env t v with ⟨a, b⟩ | ⟨a, _, b⟩ | ⟨a, _, b⟩
+  · simp [a, b]
+  · obtain ⟨m, hm⟩ := b.exists; simp [a, hm]
+  · simp [a, b]
+
+/-- the class relation spelled out: subclasses for structs (plain or enumerated), the class itself or
+an ancestor's instance for unions -/
+theorem classSat_struct (env : Env) (fl : Flags) (cls : String) (v : PyVal) :
+    (classSat env (.struct fl cls) v = true ↔ ∃ c slots, v = .struct c slots ∧ env.structSubclass c cls = true) ∧
+    (classSat env (.tree fl cls) v = true ↔ ∃ c slots, v = .struct c slots ∧ env.structSubclass c cls = true) := by
+  cases v <;> simp [classSat]
+
+theorem classSat_union (env : Env) (fl : Flags) (cls : String) (v : PyVal) :
+    classSat env (.union fl cls) v = true ↔ ∃ c tag x, v = .union c tag x ∧ env.unionSubclass cls c = true := by
+  cases v <;> simp [classSat, unionSat]
+
+/-- For a struct / struct-tree / union validator the refusal is the validation error. -/
+theorem validateTypeOnly_only_verr_of_user (env : Env) (t : PTy) (v : PyVal) (ht : isUserTy t = true) :
+    ∀ e, validateTypeOnly env t v ≠ .error (.crash e) := by
+  intro e h
+  rcases validateTypeOnly_good env t v ht with ⟨_, b⟩ | ⟨_, b⟩
+  · rw [h] at b; cases b
+  · rw [h] at b; simp at b
+
+/-! ## 5. assignment to a field -/
+
+/-- the acceptance condition of an assignment, spelled out -/
+theorem fieldSat_iff (E : Ext) (env : Env) (f : FieldDef) (x : PyVal) :
+    fieldSat E env f x = true ↔
+      (f.attrNullable = true ∧ x = .none) ∨
+      (f.attrUserDefined = true ∧ ((f.ty.flags.nullable = true ∧ x = .none) ∨ classSat env f.ty x = true)) ∨
+      (f.attrUserDefined = false ∧ satB E env f.ty x = true) := by
+  have hnone : isNoneV x = true ↔ x = .none := by cases x <;> simp [isNoneV]
+  cases hU : f.attrUserDefined <;> simp [fieldSat, hU, typeOnlyB, hnone]
+
+/-- `Attribute.__set__` succeeds exactly when: None into a nullable field, or (field of a user type)
+the class relation holds, or (any other field) the value satisfies the field's type. -/
+theorem attrSet_iff (E : Ext) (env : Env) (f : FieldDef) (slots : List (String × PyVal)) (x : PyVal) :
+    (∃ s', attrSet E env f slots x = .ok s') ↔
+      (f.attrNullable = true ∧ x = .none) ∨
+      (f.attrUserDefined = true ∧ ((f.ty.flags.nullable = true ∧ x = .none) ∨ classSat env f.ty x = true)) ∨
+      (f.attrUserDefined = false ∧ satB E env f.ty x = true) := by
+  rw [← fieldSat_iff]
+  rcases attrSet_spec E env f slots x with ⟨a, b⟩ | ⟨a, b⟩ | ⟨a, _, _, b⟩
+  · simp [a, b]
+  · obtain ⟨m, hm⟩ := b.exists; simp [a, hm]
+  · simp [a, b]
+
+/-- `setattr(obj, name, x)` on an instance of a registered class, for an existing field. -/
+theorem setField_iff (E : Ext) (env : Env) (cls : String) (slots : List (String × PyVal)) (name : String) (x : PyVal)
+    (s : StructDef) (f : FieldDef) (hs : env.struct? cls = some s) (hf : s.field? name = some f) :
+    (∃ o', setField E env (.struct cls slots) name x = .ok o') ↔
+      (f.attrNullable = true ∧ x = .none) ∨
+      (f.attrUserDefined = true ∧ ((f.ty.flags.nullable = true ∧ x = .none) ∨ classSat env f.ty x = true)) ∨
+      (f.attrUserDefined = false ∧ satB E env f.ty x = true) := by
+  rw [← attrSet_iff E env f slots x]
+  simp only [setField, hs, Option.bind_some, hf]
+  cases attrSet E env f slots x <;> simp [Except.map]
+
+/-- …and the refusal is the validation error, provided the `user_defined` flag of the attribute is
+only set on fields whose validator is of a user type (which is how the generator sets it, see
+`validatorOf_userDefined`). -/
+theorem setField_only_verr (E : Ext) (env : Env) (cls : String) (slots : List (String × PyVal)) (name : String) (x : PyVal)
+    (s : StructDef) (f : FieldDef) (hs : env.struct? cls = some s) (hf : s.field? name = some f)
+    (hud : f.attrUserDefined = true → isUserTy f.ty = true) :
+    ∀ e, setField E env (.struct cls slots) name x ≠ .error (.crash e) := by
+  intro e
+  simp only [setField, hs, Option.bind_some, hf]
+  rcases attrSet_spec E env f slots x with ⟨_, b⟩ | ⟨_, b⟩ | ⟨_, c, d, _⟩
+  · simp [b, Except.map]
+  · obtain ⟨m, hm⟩ := b.exists; simp [hm, Except.map]
+  · rw [hud c] at d; cases d
+
+/-- The generator sets `user_defined=True` only where the validator it builds is of a user type. -/
+theorem validatorOf_userDefined (ir : IrTy) (t : PTy) (h : validatorOf ir = some t)
+    (hud : ir.isUserDefinedLit = true) : isUserTy t = true := by
+  cases ir with
+  | struct cls sub => simp [validatorOf] at h; subst h; cases sub <;> rfl
+  | union cls => simp [validatorOf] at h; subst h; rfl
+  | nullable ir' =>
+    cases ir' with
+    | struct cls sub =>
+      cases sub <;> simp [validatorOf, PTy.flags, PTy.withFlags] at h <;> subst h <;> rfl
+    | union cls => simp [validatorOf, PTy.flags, PTy.withFlags] at h; subst h; rfl
+    | _ => simp [IrTy.isUserDefinedLit] at hud
+  | _ => simp [IrTy.isUserDefinedLit] at hud
+
+/-! ## 6. an accepted value reads back -/
+
+/-- After a successful assignment the field reads back what was assigned: the value itself for a
+field of a user type, its documented normalisation otherwise (None for None into a nullable field —
+both expressions are None then). Slot names of an instance are unique (`nodupS`; an instance's slots
+are a Python `__slots__` mapping — `setField_slots_nodup` shows assignment preserves it). -/
+theorem set_get (E : Ext) (env : Env) (cls : String) (slots : List (String × PyVal)) (name : String) (x : PyVal) (o' : PyVal)
+    (s : StructDef) (f : FieldDef) (hs : env.struct? cls = some s) (hf : s.field? name = some f)
+    (hnd : nodupS (slots.map (·.1)) = true)
+    (h : setField E env (.struct cls slots) name x = .ok o') :
+    getField env o' name = .ok (if f.attrUserDefined then x else normOf E f.ty x) := by
+  simp only [setField, hs, Option.bind_some, hf] at h
+  rcases attrSet_spec E env f slots x with ⟨_, b⟩ | ⟨_, b⟩ | ⟨_, _, _, b⟩
+  · rw [b] at h
+    simp [Except.map] at h
+    subst h
+    simp only [getField, hs, Option.bind_some, hf, attrGet_slotsAfter E f slots x hnd, storedOf]
+  · obtain ⟨m, hm⟩ := b.exists; rw [hm] at h; simp [Except.map] at h
+  · rw [b] at h; simp [Except.map] at h
+
+/-- the three cases of `set_get` separately -/
+theorem set_get_none (E : Ext) (env : Env) (cls : String) (slots : List (String × PyVal)) (name : String) (o' : PyVal)
+    (s : StructDef) (f : FieldDef) (hs : env.struct? cls = some s) (hf : s.field? name = some f)
+    (hnd : nodupS (slots.map (·.1)) = true)
+    (h : setField E env (.struct cls slots) name .none = .ok o') :
+    getField env o' name = .ok .none := by
+  rw [set_get E env cls slots name .none o' s f hs hf hnd h]
+  cases f.attrUserDefined <;> simp
+  cases f.ty <;> simp [normOf]
+
+/-- When the value is not None (or the field not nullable) uniqueness of slot names is not needed. -/
+theorem set_get_of_set (E : Ext) (env : Env) (cls : String) (slots : List (String × PyVal)) (name : String) (x : PyVal) (o' : PyVal)
+    (s : StructDef) (f : FieldDef) (hs : env.struct? cls = some s) (hf : s.field? name = some f)
+    (hx : f.attrNullable = false ∨ x ≠ .none)
+    (h : setField E env (.struct cls slots) name x = .ok o') :
+    getField env o' name = .ok (if f.attrUserDefined then x else normOf E f.ty x) := by
+  have hN : (f.attrNullable && isNoneV x) = false := by
+    rcases hx with h1 | h1
+    · simp [h1]
+    · cases x <;> simp [isNoneV] at h1 ⊢
+  simp only [setField, hs, Option.bind_some, hf] at h
+  rcases attrSet_spec E env f slots x with ⟨_, b⟩ | ⟨_, b⟩ | ⟨_, _, _, b⟩
+  · rw [b] at h
+    simp [Except.map] at h
+    subst h
+    simp only [getField, hs, Option.bind_some, hf, attrGet_slotsAfter_set E f slots x hN, storedOf]
+  · obtain ⟨m, hm⟩ := b.exists; rw [hm] at h; simp [Except.map] at h
+  · rw [b] at h; simp [Except.map] at h
+
+/-- Assignment keeps slot names unique. -/
+theorem setField_slots_nodup (E : Ext) (env : Env) (cls : String) (slots : List (String × PyVal)) (name : String) (x : PyVal)
+    (o' : PyVal) (hnd : nodupS (slots.map (·.1)) = true)
+    (h : setField E env (.struct cls slots) name x = .ok o') :
+    ∃ slots', o' = .struct cls slots' ∧ nodupS (slots'.map (·.1)) = true := by
+  simp only [setField] at h
+  cases hl : (env.struct? cls).bind (·.field? name) with
+  | none => rw [hl] at h; simp [crash] at h
+  | some f =>
+    rw [hl] at h
+    dsimp only at h
+    rcases attrSet_spec E env f slots x with ⟨_, b⟩ | ⟨_, b⟩ | ⟨_, _, _, b⟩
+    · rw [b] at h
+      simp [Except.map] at h
+      exact ⟨_, h.symm, nodupS_slotsAfter E f slots x hnd⟩
+    · obtain ⟨m, hm⟩ := b.exists; rw [hm] at h; simp [Except.map] at h
+    · rw [b] at h; simp [Except.map] at h
+
+/-- Assignment to one field leaves every other field's reading unchanged. -/
+theorem set_get_other (E : Ext) (env : Env) (cls : String) (slots : List (String × PyVal)) (name other : String) (x : PyVal) (o' : PyVal)
+    (s : StructDef) (f g : FieldDef) (hs : env.struct? cls = some s) (hf : s.field? name = some f)
+    (hg : s.field? other = some g) (hne : other ≠ name)
+    (h : setField E env (.struct cls slots) name x = .ok o') :
+    getField env o' other = getField env (.struct cls slots) other := by
+  have hfn : f.name = name := by
+    have := List.find?_some hf; simpa using this
+  have hgn : g.name = other := by
+    have := List.find?_some hg; simpa using this
+  simp only [setField, hs, Option.bind_some, hf] at h
+  rcases attrSet_spec E env f slots x with ⟨_, b⟩ | ⟨_, b⟩ | ⟨_, _, _, b⟩
+  · rw [b] at h
+    simp [Except.map] at h
+    subst h
+    simp only [getField, hs, Option.bind_some, hg, attrGet]
+    rw [lookupSlot_slotsAfter_ne E f slots x g.name (by rw [hgn, hfn]; exact hne)]
+  · obtain ⟨m, hm⟩ := b.exists; rw [hm] at h; simp [Except.map] at h
+  · rw [b] at h; simp [Except.map] at h
+
+/-! ## 7. constructing a union member -/
+
+/-- the payload condition spelled out -/
+theorem memberSat_iff (E : Ext) (env : Env) (t : PTy) (x : PyVal) :
+    memberSat E env t x = true ↔
+      if t.flags.nullable = false ∧ isVoidT t = true then x = .none
+      else if t.flags.nullable = false ∧ isUserTy t = true then classSat env t x = true
+      else satB E env t x = true := by
+  have hnone : isNoneV x = true ↔ x = .none := by cases x <;> simp [isNoneV]
+  cases hn : t.flags.nullable <;> cases hv : isVoidT t <;> cases hu : isUserTy t <;>
+    simp [memberSat, hn, hv, hu, hnone, typeOnlyB]
+
+/-- `Cls(tag, x)` of a registered union succeeds exactly when the tag is known and: a Void member gets
+None; a member of a (non-nullable) struct or union type gets an instance of the right class; any
+other member gets a value that satisfies its type. The result is the instance carrying `x`. -/
+theorem mkUnion_iff (E : Ext) (env : Env) (cls tag : String) (x : PyVal) (u : UnionDef) (hu : env.union? cls = some u) :
+    (∃ o, mkUnion E env cls tag x = .ok o) ↔
+      ∃ t, u.ctorValidator tag = some t ∧
+        (if t.flags.nullable = false ∧ isVoidT t = true then x = .none
+         else if t.flags.nullable = false ∧ isUserTy t = true then classSat env t x = true
+         else satB E env t x = true) := by
+  cases hc : u.ctorValidator tag with
+  | none =>
+    obtain ⟨m, hm⟩ := (mkUnion_none E env cls tag x u hu hc).exists
+    simp [hm]
+  | some t =>
+    simp only [Option.some.injEq, exists_eq_left']
+    rw [← memberSat_iff]
+    rcases mkUnion_good E env cls tag x u hu t hc with ⟨a, b⟩ | ⟨a, b⟩
+    · simp [a, b]
+    · obtain ⟨m, hm⟩ := b.exists; simp [a, hm]
+
+theorem mkUnion_result (E : Ext) (env : Env) (cls tag : String) (x : PyVal) (u : UnionDef) (hu : env.union? cls = some u)
+    (o : PyVal) (h : mkUnion E env cls tag x = .ok o) : o = .union cls tag x := by
+  cases hc : u.ctorValidator tag with
+  | none =>
+    obtain ⟨m, hm⟩ := (mkUnion_none E env cls tag x u hu hc).exists
+    rw [hm] at h; cases h
+  | some t =>
+    rcases mkUnion_good E env cls tag x u hu t hc with ⟨_, b⟩ | ⟨_, b⟩
+    · rw [b] at h; cases h; rfl
+    · obtain ⟨m, hm⟩ := b.exists; rw [hm] at h; cases h
+
+/-- Refusal by a union constructor is the validation error (unknown tag included). -/
+theorem mkUnion_only_verr (E : Ext) (env : Env) (cls tag : String) (x : PyVal) (u : UnionDef) (hu : env.union? cls = some u) :
+    ∀ e, mkUnion E env cls tag x ≠ .error (.crash e) := by
+  intro e h
+  cases hc : u.ctorValidator tag with
+  | none =>
+    have := mkUnion_none E env cls tag x u hu hc
+    rw [h] at this; simp at this
+  | some t =>
+    rcases mkUnion_good E env cls tag x u hu t hc with ⟨_, b⟩ | ⟨_, b⟩
+    · rw [h] at b; cases b
+    · rw [h] at b; simp at b
 
 end StoneVerif.C08
